@@ -1047,7 +1047,10 @@ def gen_tables(ctx):
         ("W_P", D.W_P), ("W_T", D.W_T), ("W_TBL", D.W_TBL), ("W_TR", D.W_TR), ("W_TC", D.W_TC),
         ("A_GRAPHICDATA", P.A_GRAPHICDATA), ("A_TBL", P.A_TBL), ("A_TR", P.A_TR), ("A_TC", P.A_TC), ("A_TXBODY", P.A_TXBODY),
         ("A_P", P.A_P), ("A_R", P.A_R), ("A_FLD", P.A_FLD), ("A_BR", P.A_BR), ("A_T", P.A_T), ("P_GRAPHICFRAME", P.P_GRAPHICFRAME),
-        ("TABLE_URI", P.TABLE_URI),
+        ("TABLE_URI", P.TABLE_URI), ("P_SP", P.P_SP), ("P_PIC", P.P_PIC), ("P_SPPR", P.P_SPPR), ("A_XFRM", P.A_XFRM), ("P_XFRM", P.P_XFRM),
+        ("A_OFF", P.A_OFF), ("P_NVSPPR", P.P_NVSPPR), ("P_NVPR", P.P_NVPR), ("P_PH", P.P_PH), ("P_SPTREE", P.P_SPTREE),
+        ("DRAW_FRAME", ODP._DRAW_FRAME_TAG), ("DRAW_G", ODP._DRAW_G_TAG), ("SVG_X", ODP._ATTR_SVG_X), ("SVG_Y", ODP._ATTR_SVG_Y),
+        ("TABLE_ROW", ODS._TABLE_ROW_TAG), ("TABLE_ROW", ODP._TABLE_ROW_TAG),
         ("TEXT_P", ODS._TEXT_P_TAG), ("TEXT_S", ODS._TEXT_SPACE_TAG), ("TEXT_TAB", ODS._TEXT_TAB_TAG),
         ("TEXT_LB", ODS._TEXT_LINE_BREAK_TAG), ("OFFICE_ANNOTATION", ODS._OFFICE_ANNOTATION_TAG), ("ATTR_TEXT_C", ODS._ATTR_TEXT_C),
         ("ATTR_REPEAT_ROWS", ODS._ATTR_TABLE_REPEAT_ROWS), ("ATTR_REPEAT_COLS", ODS._ATTR_TABLE_REPEAT_COLS),
@@ -1080,6 +1083,11 @@ def gen_tables(ctx):
     from sharepoint2text.parsing.extractors.ms_legacy import rtf_extractor as RTF
     txt += "Definition live_rtf_special_chars : list (str * N) := " + coq_list(
         [f"({coq_str(k)}, {ord(v)})" for k, v in RTF._RtfParser.SPECIAL_CHARS.items()]) + ".\n"
+    txt += "Definition live_pptx_title_types : list str := " + coq_list([coq_str(x) for x in sorted(P.TITLE_TYPES)]) + ".\n"
+    txt += "Definition live_pptx_body_types : list str := " + coq_list([coq_str(x) for x in sorted(P.BODY_TYPES)]) + ".\n"
+    txt += "Definition live_pptx_footer_types : list str := " + coq_list([coq_str(x) for x in sorted(P.FOOTER_TYPES)]) + ".\n"
+    txt += "Definition live_ods_row_wrappers : list str := " + coq_list([coq_str(short(x)) for x in sorted(ODS._TABLE_ROW_WRAPPER_TAGS)]) + ".\n"
+    txt += "Definition live_odp_row_wrappers : list str := " + coq_list([coq_str(short(x)) for x in sorted(ODP._TABLE_ROW_WRAPPER_TAGS)]) + ".\n"
     txt += "Definition live_ods_skip_tags : list str := " + coq_list([coq_str(short(t)) for t in sorted(ODS._TEXT_SKIP_TAGS)]) + ".\n"
     txt += "Definition live_odt_skip_tags : list str := " + coq_list([coq_str(short(t)) for t in sorted(getattr(ODT, '_TEXT_SKIP_TAGS', set()))]) + ".\n"
     txt += "Definition live_odp_skip_tags : list str := " + coq_list([coq_str(short(t)) for t in sorted(getattr(ODP, '_TEXT_SKIP_TAGS', set()))]) + ".\n"
@@ -1448,7 +1456,8 @@ def rtf_impl_text(text):
 
 
 # ----------------------------------------------------------------------------- decks (ODP / PPTX): frame order
-ODP_POS = ["1cm", "1cm", "2cm", "10mm", "0.5in", None, None, "-1cm", "abc", "0cm", "3.5cm", "28.35pt"]
+ODP_POS = ["1cm", "1cm", "2cm", "10mm", "0.5in", None, None, "-1cm", "abc", "0cm", "3.5cm", "28.35pt", " 2 cm ", "2CM", "0.79in",
+           "20.0mm", "6pc", "96px", "96", "1.", "3e1cm", "0.01cm", "0.1mm", "12.7mm", "1.27cm", "36pt"]
 PPTX_POS = [(0, 0), (0, 0), (914400, 0), (914400, 914400), (0, 914400), None, None, (1, 2), (457200, 100)]
 
 
@@ -1507,21 +1516,31 @@ def odp_deck_run(data: bytes):
 
 
 def pptx_deck_file(slides) -> bytes:
-    """slides: list of shape lists; shape = (pos or None, kind, payload); kind in table / text"""
+    """slides: list of item lists; item = (pos or None, kind, payload, placeholder or None) with kind in table / text / ph,
+    or ("g", [items]) for a p:grpSp group (nesting allowed); pos = (x, y) of any printable values"""
+    def ph_xml(ph):
+        if ph is None:
+            return "<p:nvPr/>"
+        a = (f' type="{ph[0]}"' if ph[0] else "") + (f' idx="{ph[1]}"' if ph[1] is not None else "")
+        return f"<p:nvPr><p:ph{a}/></p:nvPr>"
+    def item_xml(it, si):
+        if it[0] == "g":
+            return ('<p:grpSp><p:nvGrpSpPr><p:cNvPr id="9" name="g"/><p:cNvGrpSpPr/><p:nvPr/></p:nvGrpSpPr><p:grpSpPr/>'
+                    + "".join(item_xml(k, si) for k in it[1]) + "</p:grpSp>")
+        pos, kind, payload, ph = it
+        if kind == "table":
+            x = nd_xml(payload)
+            head = f'<p:nvGraphicFramePr><p:cNvPr id="4" name="t"/><p:cNvGraphicFramePr/>{ph_xml(ph)}</p:nvGraphicFramePr>' if ph is not None else ""
+            if pos is not None:
+                head += f'<p:xfrm><a:off x="{pos[0]}" y="{pos[1]}"/></p:xfrm>'
+            return x.replace("<p:graphicFrame>", "<p:graphicFrame>" + head, 1)
+        off = f'<a:xfrm><a:off x="{pos[0]}" y="{pos[1]}"/></a:xfrm>' if pos is not None else ""
+        return (f'<p:sp><p:nvSpPr><p:cNvPr id="{si}" name="t"/><p:cNvSpPr/>{ph_xml(ph)}</p:nvSpPr><p:spPr>{off}</p:spPr>'
+                f'<p:txBody><a:p><a:r><a:t>{xesc(str(payload))}</a:t></a:r></a:p></p:txBody></p:sp>')
     files = {"[Content_Types].xml": CT, "_rels/.rels": rels("ppt/presentation.xml")}
     ids, prels = "", ""
-    for si, shapes in enumerate(slides, 1):
-        body = ""
-        for pos, kind, payload in shapes:
-            if kind == "table":
-                x = nd_xml(payload)
-                if pos is not None:
-                    x = x.replace("<p:graphicFrame>", f'<p:graphicFrame><p:xfrm><a:off x="{pos[0]}" y="{pos[1]}"/></p:xfrm>', 1)
-                body += x
-            else:
-                off = f'<a:xfrm><a:off x="{pos[0]}" y="{pos[1]}"/></a:xfrm>' if pos is not None else ""
-                body += (f'<p:sp><p:nvSpPr><p:cNvPr id="{si}" name="t"/><p:cNvSpPr/><p:nvPr/></p:nvSpPr><p:spPr>{off}</p:spPr>'
-                         f'<p:txBody><a:p><a:r><a:t>{xesc(payload)}</a:t></a:r></a:p></p:txBody></p:sp>')
+    for si, items in enumerate(slides, 1):
+        body = "".join(item_xml(it, si) for it in items)
         files[f"ppt/slides/slide{si}.xml"] = f'<?xml version="1.0" encoding="UTF-8"?><p:sld{xmlns_decl()}><p:cSld><p:spTree>{body}</p:spTree></p:cSld></p:sld>'
         ids += f'<p:sldId id="{255 + si}" r:id="rId{si}"/>'
         prels += (f'<Relationship Id="rId{si}" Type="http://schemas.openxmlformats.org/officeDocument/2006/relationships/slide" '
@@ -1533,40 +1552,82 @@ def pptx_deck_file(slides) -> bytes:
 
 
 def pptx_deck_run(data: bytes, nslides: int):
+    """-> (p:spTree trees as parsed, int() table of every attribute value, [(shape, real position)], tables, dims, error)"""
     from sharepoint2text.parsing.extractors.ms_modern import pptx_extractor as P
-    slides, keys = [], []
+    trees, ints, poscases = [], {"0": 0}, []
     with zipfile.ZipFile(io.BytesIO(data)) as z:
         for si in range(1, nslides + 1):
             root = ET.fromstring(z.read(f"ppt/slides/slide{si}.xml"))
-            sl = []
             tree = next(root.iter(P.P_SPTREE))
-            for sh in tree.iter():
-                if sh.tag in (P.P_SP, P.P_PIC, P.P_GRAPHICFRAME):
-                    k = P._get_shape_position(sh)
-                    nd = None
-                    if sh.tag == P.P_GRAPHICFRAME:
-                        nd = nd_from_et(sh)
-                        nd.children = [c for c in nd.children if c.tag != "p:xfrm"]
-                        nd.tail = ""
-                    sl.append((k, nd))
-                    keys.append(k)
-            slides.append(sl)
-    rk = iter(ranks(keys))
-    slides = [[(*next(rk), nd) for _, nd in sl] for sl in slides]
+            for e in tree.iter():
+                for k, v in e.attrib.items():
+                    if k in ("x", "y", "idx"):
+                        ints[v] = py_int(v)
+                if e.tag in (P.P_SP, P.P_PIC, P.P_GRAPHICFRAME):
+                    poscases.append((nd_from_et(e), P._get_shape_position(e)))
+            trees.append(nd_from_et(tree))
+    for nd, _ in poscases:
+        nd.tail = ""
     try:
         c = next(iter(P.read_pptx(io.BytesIO(data))))
         tabs, dims = tables_of(c)
-        return slides, tabs, dims, None
+        return trees, ints, poscases, tabs, dims, None
     except Exception as e:  # noqa
-        return slides, None, None, type(e).__name__ + ": " + str(getattr(e, "__cause__", None) or e)[:120]
+        return trees, ints, poscases, None, None, type(e).__name__ + ": " + str(getattr(e, "__cause__", None) or e)[:120]
+
+
+def float_rec(f: float) -> str:
+    """a CPython float as exact m * 2^e (None = 0.0)"""
+    import math
+    if f == 0:
+        return "None"
+    m, e = math.frexp(f)
+    return f"(Some ({coq_Z(int(m * (1 << 53)))}, {coq_Z(e - 53)}))"
+
+
+def odf_px_witness(ctx, B):
+    """Coq: C13_odf_px_equal_lengths_equal_keys_refuted — replayed on the real code as a deck"""
+    set_selfclose("never")
+    ga, gb = [[[["A"]]]], [[[["B"]]]]
+    slides = [[("1cm", "0.1mm", "table", odf_r_ftable(ga)), ("1cm", "0.01cm", "table", odf_r_ftable(gb))]]
+    pages, tabs, dims, err = odp_deck_run(odp_deck_file(slides))
+    B["odpdeck"].add(f"({coq_list([coq_nd(pg) for pg in pages])}, " + ("None" if tabs is None else f"(Some {coq_tables(tabs)})") + ")", ("odfpx-witness",))
+    ctx.case(("odfpx-witness",), True, "witness")
+    if tabs != [[["A"]], [["B"]]]:
+        ctx.finding("odp-equal-position-different-units-reordered",
+                    "ODP: two frames at the same place written in different units (svg:y 0.1mm and 0.01cm) get different float sort keys, so they are reordered instead of keeping document order",
+                    {"format": "odp", "frames": [("1cm", "0.1mm", "A"), ("1cm", "0.01cm", "B")], "got": tabs, "want": [[["A"]], [["B"]]]})
+
+
+def odf_px_cases(ctx, batch):
+    """the regex language of _ODF_LENGTH_RE x the unit table, exhaustively over a small grammar, plus garbage"""
+    from sharepoint2text.parsing.extractors.open_office.odp_extractor import _parse_odf_length_to_px as px
+    import itertools
+    b = batch("odfpx", "(corr_odf_px py_is_ws)", "str * option (Z * Z)")
+    nums = ["0", "1", "2", "7", "10", "25", "100", "0.1", "0.01", "0.5", "1.27", "2.54", "25.4", "3.333", "12.7", "999.999", "0072", "1.50", "28.35", "123456.789"]
+    units = ["", "cm", "mm", "in", "pt", "pc", "px", "CM", "Mm", "IN", "em", "q", "cmm"]
+    pads = [("", "", ""), (" ", "", ""), ("", " ", ""), ("", "", " "), ("\t", " ", "\n"), ("\u00a0", "", "\u2003")]
+    vals = [a + n + m_ + u + z for n, u, (a, m_, z) in itertools.product(nums, units, pads)]
+    vals += ["", " ", "-1cm", "+1cm", "1.", ".5", "1..2", "1.2.3cm", "1e3", "1e3cm", "cm", "1 c m", "1cm2", "١cm", "1,5cm", "0x10", "inf", "nan", "1_0cm", "１cm"]
+    for v in vals:
+        f = px(v)
+        if f != f or f in (float("inf"), float("-inf")):
+            continue
+        if any(ord(c) > 127 and c.isdigit() for c in v):
+            ctx.count("odfpx:non-ascii-digit-skipped")      # stated assumption of the scanner
+            continue
+        b.add(f"({coq_str(v)}, {float_rec(f)})", ("odfpx", v))
+        ctx.case(("odfpx", v), f != 0.0, "odfpx")
 
 
 def deck_cases(ctx, batch, n):
     """several slides, frames of different kinds, positions equal / missing / unparseable / descending"""
     rng = ctx.rng
     DT = "list (list (nat * nat * option xml)) * option (list (list (list str)))"
-    b_od = batch("odpdeck", "corr_odp_deck", "list xml * option (list (list (list str)))")
-    b_pd = batch("pptxdeck", "(corr_pptx_deck py_is_ws)", DT)
+    b_od = batch("odpdeck", "(corr_odp_deck_f py_is_ws)", "list xml * option (list (list (list str)))")
+    b_od_rank = batch("odpdeckrank", "corr_odp_deck", "list xml * option (list (list (list str)))")
+    b_pd = batch("pptxdeck", "(corr_pptx_slides py_is_ws)", "list (str * option Z) * list xml * option (list (list (list str)))")
+    b_pp = batch("pptxpos", "corr_pptx_pos", "list (str * option Z) * xml * (Z * Z)")
     set_selfclose("never")
     def small():
         return [[[[rtext(rng, 1, 2, "abcXY")]] for _ in range(rng.randint(1, 2))] for _ in range(rng.randint(1, 2))]
@@ -1605,7 +1666,10 @@ def deck_cases(ctx, batch, n):
             slides.append(items)
         data = odp_deck_file(slides)
         pages, tabs, dims, err = odp_deck_run(data)
-        b_od.add(f"({coq_list([coq_nd(pg) for pg in pages])}, " + ("None" if tabs is None else f"(Some {coq_tables(tabs)})") + ")", ("odpdeck", mode, repr(slides)[:300]))
+        term = f"({coq_list([coq_nd(pg) for pg in pages])}, " + ("None" if tabs is None else f"(Some {coq_tables(tabs)})") + ")"
+        b_od.add(term, ("odpdeck", mode, repr(slides)[:300]))
+        if i % 4 == 0:
+            b_od_rank.add(term, ("odpdeckrank", mode, repr(slides)[:300]))
         def shape(items):
             return [("g", shape(it[1])) if it[0] == "g" else (it[0], it[1], it[2]) for it in items]
         desc = [shape(sl) for sl in slides]
@@ -1620,13 +1684,13 @@ def deck_cases(ctx, batch, n):
             elif mode in ("same", "missing", "sorted") and tabs != [s_[2] for s_ in src]:
                 ctx.finding("odp-deck-tables-out-of-source-order", f"ODP deck ({mode} positions): tables {tabs!r} are not in source order {[s_[2] for s_ in src]!r}",
                             {"format": "odp", "slides": desc, "got": tabs, "want": [s_[2] for s_ in src]})
-        # ---- PPTX
+        # ---- PPTX (shapes directly in the tree and inside nested p:grpSp groups; placeholders; odd offsets)
         slides, src = [], []
         for si in range(rng.randint(1, 3)):
             shapes = []
-            for fi in range(rng.randint(1, 4)):
+            for fi in range(rng.randint(1, 5)):
                 if mode == "random":
-                    pos = rng.choice(PPTX_POS)
+                    pos = rng.choice(PPTX_POS + [("abc", 0), ("", 5), (-5, -7), (" 7 ", 1), ("1_0", 2)])
                 elif mode == "same":
                     pos = (914400, 914400)
                 elif mode == "missing":
@@ -1635,28 +1699,40 @@ def deck_cases(ctx, batch, n):
                     pos = (0, (9 - fi) * 100000)
                 else:
                     pos = (0, (fi + 1) * 100000)
-                kind = rng.choice(["table", "table", "text"])
+                kind = rng.choice(["table", "table", "text", "ph"])
                 g = small()
-                shapes.append((pos, kind, pptx_r_frame(g) if kind == "table" else "txt"))
+                ph = rng.choice([None, None, ("title", None), ("body", "1"), ("", "3"), ("tbl", "x"), ("ftr", None), ("sldNum", "12"), ("dt", None)])
+                shapes.append((pos, kind, pptx_r_frame(g) if kind == "table" else "txt", ph))
                 if kind == "table":
                     src.append((si, fi, [["\n".join(para_text(p) for p in c).strip() for c in r] for r in g]))
-            slides.append(shapes)
+            items, k = [], 0
+            while k < len(shapes):
+                ln = rng.randint(1, 3)
+                run = list(shapes[k:k + ln])
+                for _ in range(rng.choice([0, 0, 1, 2])):
+                    run = [("g", run)]
+                items += run
+                k += ln
+            slides.append(items)
         data = pptx_deck_file(slides)
-        ms, tabs, dims, err = pptx_deck_run(data, len(slides))
-        b_pd.add(f"({coq_deck(ms)}, " + ("None" if tabs is None else f"(Some {coq_tables(tabs)})") + ")", ("pptxdeck", mode, repr([[s_[:2] for s_ in sl] for sl in slides])))
-        ctx.case(("pptxdeck", repr([[s_[:2] for s_ in sl] for sl in slides]), repr(src)), bool(tabs), "pptx:deck-" + mode)
-        desc = [[(s_[0], s_[1]) for s_ in sl] for sl in slides]
+        trees, it, poscases, tabs, dims, err = pptx_deck_run(data, len(slides))
+        b_pd.add(f"({coq_int_table(it)}, {coq_list([coq_nd(x) for x in trees])}, " + ("None" if tabs is None else f"(Some {coq_tables(tabs)})") + ")", ("pptxdeck", mode))
+        for nd, k_ in poscases[:6]:
+            b_pp.add(f"({coq_int_table(it)}, {coq_nd(nd)}, ({coq_Z(k_[0])}, {coq_Z(k_[1])}))", ("pptxpos", nd_xml(nd)[:300]))
+        def shape(items):
+            return [("g", shape(it_[1])) if it_[0] == "g" else (it_[0], it_[1], it_[3]) for it_ in items]
+        desc = [shape(sl) for sl in slides]
+        ctx.case(("pptxdeck", repr(desc), repr(src)), bool(tabs), "pptx:deck-" + mode)
         if tabs is None:
-            ctx.finding("pptx-deck-extraction-raised", f"PPTX: read_pptx fails for the whole deck ({err}) on shapes (position, kind) per slide {desc!r}",
+            ctx.finding("pptx-deck-extraction-raised", f"PPTX: read_pptx fails for the whole deck ({err}) on shapes (position, kind, placeholder; g = p:grpSp) per slide {desc!r}",
                         {"format": "pptx", "slides": desc, "error": err})
         else:
             if sorted(map(repr, tabs)) != sorted(repr(s_[2]) for s_ in src):
-                ctx.finding("pptx-deck-tables-lost-or-invented", f"PPTX deck: tables {tabs!r} are not the source tables {[s_[2] for s_ in src]!r} (shapes {desc!r})",
+                ctx.finding("pptx-deck-tables-lost-or-invented", f"PPTX deck: tables {tabs!r} are not the source tables {[s_[2] for s_ in src]!r} (shapes, g = p:grpSp: {desc!r})",
                             {"format": "pptx", "slides": desc, "got": tabs, "want": [s_[2] for s_ in src]})
-            elif mode in ("same", "missing", "sorted") and tabs != [s_[2] for s_ in src]:
+            elif mode in ("same", "missing", "sorted") and all(s_[3] is None for sl in slides for s_ in flat_frames(sl)) and tabs != [s_[2] for s_ in src]:
                 ctx.finding("pptx-deck-tables-out-of-source-order", f"PPTX deck ({mode} positions): tables {tabs!r} are not in source order {[s_[2] for s_ in src]!r}",
                             {"format": "pptx", "slides": desc, "got": tabs, "want": [s_[2] for s_ in src]})
-
 
 def wrapper_cases(ctx, B):
     """rows wrapped the way ODF allows: table:table-header-rows (repeat heading rows / rows to repeat),
@@ -1750,6 +1826,11 @@ def run(ctx):
         "harness writers (zip + XML templates, openpyxl for xlsx, strings for html/epub/rtf) and the Python mirrors of the "
         "Coq render functions — Coq re-checks `parsed tree = render doc` for every structured case",
         "XLS: _read_content is driven with an xlrd Book stand-in (no OLE2 writer)",
+        "slide order: ODP _parse_odf_length_to_px is modelled bit-exactly in IEEE-754 binary64 (Coq SpecFloat; float(decimal) = correctly "
+        "rounded digits/10^k, assumed < 2^53 digits, <= 22 decimals, ASCII digits) and tied by an exhaustive small-grammar correspondence; "
+        "PPTX _get_shape_position is modelled over the tree with int() as oracle; bounded float theorems state their bound (d/100 unit, d <= 3000)",
+        "outside the model: DOCX anchor paragraph indices of tables, PPTX/ODP text/picture handling of the same loops, group-relative offsets "
+        "(a:chOff) which the extractor itself ignores, openpyxl/xlrd/ElementTree/html.parser parsing (third-party), PDF table heuristics (excluded by the property)",
         "RTF: regexes modelled as hand-written matchers (re_sub/re_find_all/re_split + one matcher per pattern), tied by "
         "document-, _strip_rtf_simple- and _extract_table_cells-level correspondences; assumes ASCII digits after \\u / control "
         "words and no code point that case-folds into ASCII or changes length under str.lower() (U+0130, U+0131, U+017F, U+212A); "
@@ -1758,7 +1839,7 @@ def run(ctx):
     ctx.assumptions += ["CPython 3.12 str/regex whitespace; int(str(n)) = n for the repeat counts the renderer writes"]
     gen_tables(ctx)
 
-    ok1, _ = ctx.prove("C13/Props.v", timeout=400, deps=["C13/ProofsHtml.vo", "C13/ProofsOds.vo", "C13/ProofsSheets.vo", "C13/ProofsTree.vo", "C13/ProofsRtf.vo", "C13/ProofsOrder.vo", "C13/ProofsRows.vo"],
+    ok1, _ = ctx.prove("C13/Props.v", timeout=400, deps=["C13/ProofsHtml.vo", "C13/ProofsOds.vo", "C13/ProofsSheets.vo", "C13/ProofsTree.vo", "C13/ProofsRtf.vo", "C13/ProofsOrder.vo", "C13/ProofsRows.vo", "C13/ProofsPos.vo", "C13/ProofsPptx.vo"],
                        expected=["C13_get_dim_is_shape", "C13_get_dim_rect", "C13_xls_get_dim_is_shape",
                                  "C13_docx_tables_flat", "C13_docx_adjacent", "C13_docx_tables_preorder", "C13_docx_toplevel_refuted",
                                  "C13_pptx_table_roundtrip", "C13_odt_tables_flat", "C13_odt_nested_refuted", "C13_odp_table_flat", "C13_odp_cell_comment_skipped",
@@ -1769,6 +1850,9 @@ def run(ctx):
                                  "C13_xlsx_typed_header_refuted", "C13_xlsx_date_header_refuted", "C13_xlsx_typed_values",
                                  "C13_ods_cell_comment_skipped", "C13_ods_nonfinite_kept_as_text",
                                  "C13_table_rows_through_wrappers", "C13_ods_sheet_wrapped", "C13_odp_table_wrapped", "C13_slide_frames_groups",
+                                 "C13_odf_px_strictly_monotone_bounded", "C13_odf_px_equal_lengths_equal_keys_refuted", "C13_odf_px_cross_unit_order_partial",
+                                 "C13_pptx_position_explicit", "C13_pptx_position_missing", "C13_pptx_table_at", "C13_pptx_slide_shapes_groups",
+                                 "C13_pptx_slide_tables_perm", "C13_stable_sort_le_sorted_id",
                                  "C13_deck_tables_perm", "C13_deck_tables_source_order", "C13_slide_tables_same_position",
                                  "C13_rtf_tables_single", "C13_rtf_tables_single_gen", "C13_rtf_pad_rows_id", "C13_rtf_tables_long_separator", "C13_rtf_adjacent_tables_merged_refuted", "C13_rtf_get_dim",
                                  "C13_xls_sheet_partial", "C13_xls_duplicate_header_refuted",
@@ -1777,6 +1861,7 @@ def run(ctx):
     ctx.prove("C13/InstRemove.v", timeout=300, deps=["Gen/C13Tables.vo"], expected=["C13_remove_tags_match", "C13_void_remove_tags_match"])
     ctx.prove("C13/InstSkip.v", timeout=300, deps=["Gen/C13Tables.vo"], expected=["C13_odf_skip_tags_match", "C13_span_not_skipped"])
     ctx.prove("C13/InstWs.v", timeout=300, deps=["Gen/C13Tables.vo"], expected=["C13_ws_ascii_agrees"])
+    ctx.prove("C13/InstSets.v", timeout=300, deps=["Gen/C13Tables.vo"], expected=["C13_pptx_placeholder_types_match", "C13_row_wrappers_match"])
     ctx.prove("C13/InstRtf.v", timeout=300, deps=["Gen/C13Tables.vo", "C13/ProofsRtf.vo"], expected=["C13_rtf_special_chars_match", "C13_rtf_oracle_facts", "C13_rtf_tables_single_live", "C13_rtf_tables_single_gen_live"])
 
     n = ctx.n(60, 450)
@@ -2285,8 +2370,10 @@ def run(ctx):
     # ---------------- witnesses of the refuted statements, on the real code
     witnesses(ctx, lambda name, fn, ty: B[name] if name in B else batch(name, fn, ty))
 
-    # ---------------- decks: order of frames / shapes
+    # ---------------- decks: order of frames / shapes; position parsers
     deck_cases(ctx, batch, n // 2)
+    odf_px_cases(ctx, batch)
+    odf_px_witness(ctx, B)
 
     # ---------------- fixed cases
     fixed_cases(ctx, B, dim_cases)
@@ -2331,5 +2418,7 @@ META = {
                   "multi-paragraph HTML cells, ODS >100 empty repeats, XLSX header row, XLS duplicate headers) are proved in "
                   "Coq and replayed on the implementation. Models are tied to the code by generating real files per format.",
     "level_note": "Trusted: Coq kernel+VM; XML/HTML/openpyxl/xlrd parsing, int(), float(), whitespace set as oracles; the "
-                  "hand-written models (validated differentially); harness writers.",
+                  "hand-written models (validated differentially); harness writers. Position parsing is modelled (ODP floats bit-exactly, PPTX ints); "
+                  "third-party parsers (ElementTree, html.parser, openpyxl, xlrd) and int()/float()/whitespace sets stay oracles; DOCX table anchor indices and "
+                  "non-table shape handling are not modelled.",
 }
